@@ -54,13 +54,14 @@ CHECKS = {
    text="Proved in Coq for EVERY number of baths and depth (induction, no size bound): each generated level holds every "
         "multi-index of its total order exactly once; the flattened table is complete, duplicate free and ordered by level; "
         "raising and lowering links (the code's last-match searches) are mutually inverse, absent exactly when the entry is 0 "
-        "resp. the order equals the depth; the root is entry 0 and never a raising target. For the right-hand sides "
+        "resp. the order equals the depth; the root is entry 0 and never a raising target; level j has C(N+j-1, j) entries (counted "
+        "against a canonical enumeration; Pascal rule proved). For the right-hand sides "
         "(transcribed incl. the nk*jj>=0 / jj>0 guards and Python's index -1) over any commutative *-ring: the trace of ADO 0 "
         "is conserved exactly and all ADOs stay Hermitian at every stored time for every expansion order and step; with zero "
         "reorganisation energies higher ADOs stay zero and ADO 0 obeys the closed-system equation. Validated only: convergence "
         "with depth to exp(-i w t - g(t)) for uncoupled sites and the closed-system limit against expm.",
    note=TB + "All C16 theorems closed under the global context. Tie: tables of real KTHierarchy objects compared exactly in Coq; "
-        "right-hand sides compared exactly on Gaussian-integer inputs. The binomial level count is not mechanised.",
+        "right-hand sides compared exactly on Gaussian-integer inputs.",
    design="7/C16", technique="Coq proof (induction over levels, NoDup/sortedness of the table, ring algebra for the RHS) + exact in-Coq correspondence"),
  "C05": dict(
    text="Proved in Coq: over the rationals and for arbitrary non-zero conversion factors, a value supplied under u and read under v "
